@@ -459,8 +459,30 @@ func (s *Solver) SolvePortfolio(vs []Variant) Answer {
 		r, out, solver string
 		full           bool
 		ms             int64
+		file           string
 	}
 	finish := func(r res) Answer {
+		if s.AllAgree && r.r == "unsat" && r.file != "" {
+			// thorough tier: a second solver of another family looks at the same formulation
+			other := solverCmds[3] // cvc5
+			if strings.HasPrefix(r.solver, "cvc5") {
+				other = solverCmds[0]
+			}
+			cr, _, _ := runOneT(context.Background(), other.bin, other.args(20), r.file, 20)
+			s.mu.Lock()
+			switch cr {
+			case "unsat":
+				s.Stats["crosscheck:agree"]++
+			case "sat":
+				s.Stats["crosscheck:DISAGREE"]++
+			default:
+				s.Stats["crosscheck:no-answer"]++
+			}
+			s.mu.Unlock()
+			if cr == "sat" {
+				r = res{r: "error", solver: "disagreement:" + r.solver + "-unsat/" + other.name + "-sat", out: "solvers disagree on " + r.file, full: r.full}
+			}
+		}
 		proved = r.r == "unsat"
 		a := Answer{Result: r.r, Solver: r.solver, Output: r.out, File: file, Ms: r.ms}
 		if r.r != "unsat" && r.r != "sat" {
@@ -488,7 +510,7 @@ func (s *Solver) SolvePortfolio(vs []Variant) Answer {
 			v := vs[i]
 			go func() {
 				r, out, ms := runOneT(ctx, sc.bin, sc.args(2), files[i], 2)
-				ch <- res{r, out, sc.name + "/" + v.Name, v.Full, ms}
+				ch <- res{r, out, sc.name + "/" + v.Name, v.Full, ms, files[i]}
 			}()
 		}
 		for i, v := range vs {
@@ -534,7 +556,7 @@ func (s *Solver) SolvePortfolio(vs []Variant) Answer {
 			i, v, sc := i, v, sc
 			go func() {
 				r, out, ms := runOneT(ctx, sc.bin, sc.args(sec), files[i], sec)
-				ch <- res{r, out, sc.name + "/" + v.Name, v.Full, ms}
+				ch <- res{r, out, sc.name + "/" + v.Name, v.Full, ms, files[i]}
 			}()
 		}
 	}
